@@ -51,7 +51,7 @@ def run(ctx):
     ctx.rule = ("receivers of 2 panels x 1-3 tubes (1D/2D/3D mixes, multipliers, different heights, flux on one side varying along "
                 "the height, convective inner wall, pressure) in three connection patterns (all disconnected = sub-problems in "
                 "parallel; all coupled = edges in parallel; mixed); 740H thermal/deformation(base)/damage data, SiC PIA reliability; "
-                "configurations (nthreads, paging, progress): (1,off,off) reference, (2,off,off), (3,on,on), (1,on,off), (ntubes,off,on); "
+                "configurations (nthreads, paging, progress): (1,off,off) reference, (2,off,off), (3,on,on), (1,on,off), (ntubes,off,on), (2 ntubes + 1,off,off); "
                 "plus the coupled thermohydraulic solver on a small receiver with (1,off), (2,off), (3,on). "
                 "one case = one pipeline run; all non-trivial")
     ctx.trusted += ["process isolation of multiprocess workers and dill pickling (exercised, not modelled)",
@@ -70,7 +70,8 @@ def run(ctx):
     for kind in kinds:
         rec = gen_receiver(rng, kind.split("-")[0])
         ntubes = sum(len(p["tubes"]) for p in rec["panels"])
-        configs = [(1, False, False), (2, False, False), (3, True, True), (1, True, False), (ntubes, False, True)]
+        configs = [(1, False, False), (2, False, False), (3, True, True), (1, True, False), (ntubes, False, True),
+                   (2 * ntubes + 1, False, False)]      # more workers than there are tubes or sub-problems
         if kind == "tiny-cutback":
             configs = [(1, False, False), (2, False, False), (1, True, True)]
         if ctx.tier == "thorough":
@@ -108,6 +109,18 @@ def run(ctx):
     for grp in groups:
         ref_c, ref = cases[grp[0]], results[grp[0]]
         if ref.get("outcome") != "ok":
+            first = ref.get("msg", "").split(" | ")[0]
+            if first.startswith("RuntimeError:") and ("converge" in first or "Adaptive integration failed" in first or "Too many iterations" in first):
+                # a solver of the pipeline gives this analysis up (its documented way of failing): there are no results to compare,
+                # but every configuration has to give it up in the same way
+                ctx.count("reference raises non-convergence (outcomes compared)")
+                for i in grp[1:]:
+                    c, r = cases[i], results[i]
+                    if r.get("outcome") == "ok" or r.get("msg", "").split(" | ")[0] != first:
+                        findings.append((c, "nthreads=%d page_results=%s progress_bars=%s (%s receiver): %s where the reference run raises %s"
+                                         % (c["nthreads"], c["page"], c["progress"], c["kind"],
+                                            "the run succeeds" if r.get("outcome") == "ok" else "the run fails with " + r.get("msg", "").split(" | ")[0][:120], first[:120])))
+                continue
             findings.append((ref_c, "the reference run (1 worker, in memory, no progress bars) failed: %s" % ref.get("msg", "")[:300]))
             continue
         for i in grp[1:]:
